@@ -633,7 +633,7 @@ func main() {
 	fmt.Fprintf(&b, "(* GENERATED by tools/lockfacts from %s (type %s) -- do not edit.\n", *rel, *typ)
 	fmt.Fprintf(&b, "   Regenerated by bin/regen-c13.sh on every `bin/check C13` run; Properties/C13.v proves\n")
 	fmt.Fprintf(&b, "   lock_facts_ok on this file by computation. *)\n")
-	fmt.Fprintf(&b, "From Coq Require Import List String.\nFrom PF Require Import Graph.Lock.\nImport ListNotations.\nOpen Scope string_scope.\n\n")
+	fmt.Fprintf(&b, "From Coq Require Import List String.\nFrom PF Require Import Graph.Lock Graph.LockExt.\nImport ListNotations.\nOpen Scope string_scope.\n\n")
 	fmt.Fprintf(&b, "(* recognised lock helpers (normalised, see tools/lockfacts): lock wrappers %v, unlock wrappers %v, lock-and-return-unlock %v *)\n",
 		keysS(c.lockWrap), keysS(c.unlockWrap), keysS(c.lockRet))
 	fmt.Fprintf(&b, "Definition struct_fields : list string := %s.\n", coqStrs(fieldOrder))
@@ -655,6 +655,12 @@ func main() {
 		fmt.Fprintf(&b, "     mf_self_calls := %s |}", coqStrs(f.Self))
 	}
 	fmt.Fprintf(&b, "\n].\n")
+	hf, err := handlerFacts(*repo, c.methods)
+	if err != nil {
+		fmt.Fprintln(os.Stderr, "lockfacts: handler facts:", err)
+		os.Exit(1)
+	}
+	b.WriteString(hf)
 
 	if *out == "" {
 		os.Stdout.Write(b.Bytes())
